@@ -99,5 +99,6 @@ PROPS = {
                       rp("procs", "TestC19Binary", (4, 1), (80, 4), helpers=["cmd/vhelper", "pkg:github.com/Flowpack/prunner/cmd/prunner"])]},
     "C20": {"level": "exploration", "assumptions": ["/proc is the process table; processes are identified by a per-run marker in argv", "processes that leave their process group (setsid) are outside the statement", "two recorded findings (known_findings.txt) are excluded from the generated trees by construction and exercised separately"],
             "parts": [rp("procs", "TestC20", (20, 3), (600, 8), helpers=["cmd/vhelper"]),
-                      rp("procs", "TestC20AtEnd", (10, 2), (300, 8), helpers=["cmd/vhelper"])]},
+                      rp("procs", "TestC20AtEnd", (10, 2), (300, 8), helpers=["cmd/vhelper"]),
+                      rp("procs", "TestC20Lookup", (12, 2), (300, 8), helpers=["cmd/vhelper"])]},
 }
